@@ -7,7 +7,9 @@ constructor machinery of ctorgen / ctorlib (imported, not modified):
                                    accessor interfaces (embedded, explicit, complete), implements
   * leaf / embedded-pointer helpers, Coq rendering helpers
 """
+import concurrent.futures as cf
 import json
+import random
 
 import lib
 import ctorgen
@@ -145,3 +147,32 @@ def spec_from_json(spec):
             if fd["tag"] is not None:
                 fd["tag"] = str(fd["tag"])
     return pkg
+
+
+class _L1Run:
+    """a view of the Run for the L1 checks that run in a background thread: same scratch / coqc, own random stream"""
+
+    def __init__(self, run):
+        self._run = run
+        self.rng = random.Random(run.seed * 7919 + 11)
+        self.scratch = run.scratch
+
+    def __getattr__(self, name):
+        return getattr(self._run, name)
+
+
+def start_l1(run, probe):
+    """transfer + directive L1 in a background thread; .result() -> (ncalls, tm, dcalls, dm)"""
+    import transfer_l1
+    import ctordirective_l1
+    r1 = _L1Run(run)
+
+    def work():
+        ncalls, tm = (transfer_l1.check_transfer(r1, probe) if run.thorough()
+                      else transfer_l1.check_transfer(r1, probe, n_random=400, maxlen=3))
+        dcalls, dm = ctordirective_l1.check_directives(r1, probe, thorough=run.thorough())
+        return ncalls, tm, dcalls, dm
+    ex = cf.ThreadPoolExecutor(max_workers=1)
+    fut = ex.submit(work)
+    ex.shutdown(wait=False)
+    return fut
